@@ -6,7 +6,7 @@
    computation is on booleans / dumps / real numbers, never on a term of type
    F32 / F64. *)
 From RM Require Import Model.ControlPoints Model.Curve Proofs.EncFloat Proofs.LengthFacts Proofs.LengthBound Proofs.InterpExact Proofs.PositionExact
-  Proofs.AdjustExact Proofs.AdjustIEEEBase Proofs.AdjustIEEE Proofs.InterpIEEE.
+  Proofs.AdjustExact Proofs.AdjustIEEEBase Proofs.AdjustIEEE Proofs.InterpIEEE Proofs.InterpIEEEFrac.
 From Flocq Require Import Core BinarySingleNaN.
 From Coq Require Import Reals Lra Lia ZArith List.
 Import ListNotations.
@@ -148,3 +148,69 @@ Example ex_interp_dump :
   dump_out dump_pos (interpolate_vertices ex_path ex_lens 2 (D.of_Z 9))
   = [0%Z; S.bits (S.of_decimal false 45384617 (-7)); S.bits (S.of_decimal false 7692308 (-6))].
 Proof. vm_compute. reflexivity. Qed.
+
+(* ---------- C19: progress lengths[1] / dist = 5 / 18, vertex (3, 4) ---------- *)
+
+Lemma ex_sorted : sorted_fin ex_lens.
+Proof.
+  destruct (D_ofZ 0 ltac:(lia)) as (F0 & R0). destruct (D_ofZ 5 ltac:(lia)) as (F5 & R5).
+  destruct (D_ofZ 18 ltac:(lia)) as (F18 & R18). split.
+  - repeat constructor; assumption.
+  - intros a b x y Hab Ha Hb.
+    assert (K : forall n z, nth_error ex_lens n = Some z ->
+                (n = 0%nat /\ B2R z = 0) \/ (n = 1%nat /\ B2R z = 5) \/ (n = 2%nat /\ B2R z = 18)).
+    { intros n z Hn. unfold ex_lens in Hn. destruct n as [|[|[|n]]]; cbn in Hn.
+      - inversion Hn; subst. left. split; [reflexivity|exact R0].
+      - inversion Hn; subst. right. left. split; [reflexivity|exact R5].
+      - inversion Hn; subst. right. right. split; [reflexivity|exact R18].
+      - destruct n; discriminate. }
+    destruct (K a x Ha) as [(Ea & Ex)|[(Ea & Ex)|(Ea & Ex)]];
+      destruct (K b y Hb) as [(Eb & Ey)|[(Eb & Ey)|(Eb & Ey)]]; rewrite Ex, Ey; try lra; exfalso; clear - Hab Ea Eb; lia.
+Qed.
+
+Example ex_frac_hyps : frac_hyps ex_p0 ex_p1 ex_p2 (D.of_Z 0) (D.of_Z 5) (D.of_Z 18) (Curve.dist ex_lens).
+Proof.
+  change (Curve.dist ex_lens) with (D.of_Z 18).
+  destruct (D_ofZ 0 ltac:(lia)) as (F0 & R0). destruct (D_ofZ 5 ltac:(lia)) as (F5 & R5).
+  destruct (D_ofZ 18 ltac:(lia)) as (F18 & R18).
+  unfold frac_hyps. cbn [ex_p0 ex_p1 ex_p2 px py].
+  repeat (split; [apply bnd32_ofZ; lia|]).
+  split; [exact F18|]. rewrite R0, R5, R18.
+  assert (P1 : 18 <= pw 1023) by (apply Rle_trans with (pw 5); [cbn; lra|apply bpow_le; lia]).
+  assert (P2 : pw (-51) <= 1) by (apply Rle_trans with (pw 0); [apply bpow_le; lia|cbn; lra]).
+  assert (P3 : eta64 <= / 1000) by (unfold eta64; apply Rle_trans with (pw (-10)); [apply bpow_le; lia|cbn; lra]).
+  pose proof eta64_pos as E64.
+  assert (D : Dfrac 5 18 < 1) by (unfold Dfrac, u64; lra).
+  repeat split; lra.
+Qed.
+
+(* position_at (lengths[1] / dist) is the vertex (3, 4) up to 1.4e-6 / 3.2e-6 px *)
+Example ex_frac_bound :
+  exists q, position_at ex_path ex_lens (D.div (D.of_Z 5) (Curve.dist ex_lens)) = Done q /\
+    Rabs (B2R (px q) - 3) <= 1.4 / 1000000 /\ Rabs (B2R (py q) - 4) <= 3.2 / 1000000.
+Proof.
+  destruct (vertex_fraction_position_partial ex_path ex_lens 0 ex_p0 ex_p1 ex_p2 (D.of_Z 0) (D.of_Z 5) (D.of_Z 18)
+              eq_refl eq_refl eq_refl eq_refl eq_refl eq_refl ex_sorted ex_frac_hyps) as (q & Hq & Bx & By).
+  exists q. split; [exact Hq|].
+  change (Curve.dist ex_lens) with (D.of_Z 18) in Bx, By.
+  rewrite (proj2 (D_ofZ 0 ltac:(lia))), (proj2 (D_ofZ 5 ltac:(lia))), (proj2 (D_ofZ 18 ltac:(lia))) in Bx, By.
+  unfold ex_p0, ex_p1, ex_p2 in Bx, By. cbn [px py] in Bx, By.
+  rewrite (proj2 (S_ofZ 0 ltac:(lia))), (proj2 (S_ofZ 3 ltac:(lia))), (proj2 (S_ofZ 8 ltac:(lia))) in Bx.
+  rewrite (proj2 (S_ofZ 0 ltac:(lia))), (proj2 (S_ofZ 4 ltac:(lia))), (proj2 (S_ofZ 16 ltac:(lia))) in By.
+  assert (P : pw (-125) <= / 100000000).
+  { apply Rle_trans with (pw (-30)); [apply bpow_le; lia|cbn; lra]. }
+  assert (P3 : eta64 <= / 100000000000).
+  { unfold eta64. apply Rle_trans with (pw (-40)); [apply bpow_le; lia|cbn; lra]. }
+  pose proof eta64_pos as E64.
+  assert (A0 : Rabs 0 = 0) by apply Rabs_R0.
+  assert (A3 : Rabs 3 = 3) by (apply Rabs_pos_eq; lra). assert (A8 : Rabs 8 = 8) by (apply Rabs_pos_eq; lra).
+  assert (A4 : Rabs 4 = 4) by (apply Rabs_pos_eq; lra). assert (A16 : Rabs 16 = 16) by (apply Rabs_pos_eq; lra).
+  assert (A30 : Rabs (3 - 0) = 3) by (rewrite Rabs_pos_eq; lra). assert (A83 : Rabs (8 - 3) = 5) by (rewrite Rabs_pos_eq; lra).
+  assert (A40 : Rabs (4 - 0) = 4) by (rewrite Rabs_pos_eq; lra). assert (A164 : Rabs (16 - 4) = 12) by (rewrite Rabs_pos_eq; lra).
+  unfold Efrac, E19, Dfrac, u32, u64 in Bx, By.
+  rewrite A0, A3, A8, A30, A83 in Bx. rewrite A0, A4, A16, A40, A164 in By.
+  rewrite (Rmax_right 0 3), (Rmax_right 3 8) in Bx by lra. rewrite (Rmax_right 0 4), (Rmax_right 4 16) in By by lra.
+  split.
+  - eapply Rle_trans; [exact Bx|]. apply Rmax_lub; lra.
+  - eapply Rle_trans; [exact By|]. apply Rmax_lub; lra.
+Qed.
